@@ -123,3 +123,10 @@ add("C11", "model_checking", "exhaustive enumeration of selection chains (transi
     "refusal iff the reference set is empty, lazy [] and iteration agree. Part B: 13 mutators through every depth<=2 view on a fresh deepcopy, canonical snapshot diff confined to the view's rows.",
     "Weaker readings (loc on a boundary, masks only where unambiguous, [] / iteration raising on a non-level view is a refusal); modules up to 2 cells / 5 branches / 9 compartments.",
     "DESIGN.md §7 C11")
+
+add("C16", "exploration", "exhaustive enumeration of all depth-first-ordered SWC point trees up to 6 (quick) / 8 (thorough) points x soma forms x type patterns x reader options, real read_swc against a reference reader written from the documented conventions",
+    "Every Catalan tree up to the bound x {single-point, 3-point soma with neurites on any soma point} x four neurite type patterns x 12 option settings (ncomp, max_branch_len, min_radius) is written "
+    "to a file and read with the real read_swc; branch count, parent relation up to isomorphism, per-branch length, radii at compartment centres, type groups and the splitting contract are "
+    "compared with vf/refswc.py, and lengths/connectivity must be invariant under ncomp.",
+    "One generic geometry valuation (fixed formulas); branch order and cut positions of max_branch_len are undocumented and compared up to isomorphism / by contract; junction branches are contracted.",
+    "DESIGN.md §7 C16")
